@@ -287,6 +287,7 @@ void fdlayer_end_of_run() __attribute__((weak));
 void uring_reset() __attribute__((weak));
 void uring_end_of_run() __attribute__((weak));
 void uring_on_close(int fd) __attribute__((weak));
+void fd_on_arena_free(void* p, size_t n) __attribute__((weak));  // fdlayer: no kernel registration may point into freed memory
 
 // ---- crash
 void crash_install();
